@@ -1,12 +1,18 @@
 (* Lmmm/Swap.v — C06: hot-swapping the same program is the identity on the output stream. *)
 From Coq Require Import List ZArith NArith Bool Lia.
-From Mimium Require Import StateTree.Model StateTree.Lemmas Lmmm.Syntax Lmmm.Ref Lmmm.Compile Lmmm.Machine Lmmm.Wf Lmmm.Spec Lmmm.Base Lmmm.Layout Lmmm.LayoutProg.
+From Mimium Require Import StateTree.Model Lmmm.Syntax Lmmm.Ref Lmmm.Compile Lmmm.Machine Lmmm.Wf Lmmm.Spec Lmmm.Base Lmmm.Layout Lmmm.LayoutProg.
 Import ListNotations.
 Local Open Scope N_scope.
 
 (* C06_plan_none *)
+Lemma skel_eqb_same : forall s, skel_eqb s s = true.
+Proof.
+  induction s as [l|n|n|cs IH] using skel_ind_l; cbn [skel_eqb]; try apply N.eqb_refl.
+  induction IH as [|c cs Hc _ IHcs]; [reflexivity|]. rewrite Hc. exact IHcs.
+Qed.
+
 Theorem plan_none : forall cp, plan (published_skeleton cp) (published_skeleton cp) = None.
-Proof. intros cp. apply plan_identical_none. Qed.
+Proof. intros cp. unfold plan. rewrite skel_eqb_same. reflexivity. Qed.
 
 (* cursor at the origin (and, for WASM, storage allocated) *)
 Definition home (d : disc) (cp : cprog) (m : mstate) : Prop :=
